@@ -272,11 +272,13 @@ def run_shard(spec, ctx):
             if i == 0:
                 ctx.sample({'soup_prefix': t[:80]})
     elif kind == 'window':
-        grid = [(d, l) for d in range(3112, 3130) for l in (15, 16, 17, 18, 19)]
+        # every distance around both conceivable window edges (16 x 195 = 3120, 16 x 196 = 3136) with the longest block first, then the
+        # other lengths
+        grid = [(d, 17) for d in range(3110, 3142)] + [(d, l) for d in range(3112, 3142) for l in (15, 16, 18, 19)]
         for i in range(spec['count']):
             # the shards walk a fixed (distance, length) grid around the window edge; random pairs beyond it
             idx = spec.get('index', 0) * spec['count'] + i
-            dist, ln = grid[(idx * 7) % len(grid)] if idx < 2 * len(grid) else (rng.randint(3110, 3140), rng.randint(15, 19))
+            dist, ln = grid[idx] if idx < len(grid) else (rng.randint(3100, 3150), rng.randint(3, 19))
             block = bytes(rng.choice(b'abcdefghijklmnopqrstuvwxyz') for _ in range(ln))
             t = block + unique_filler(rng, dist - ln) + block + b'\n'
             ctx.feature('window_dist_%s' % ('le3120' if dist <= 3120 else 'gt3120'))
